@@ -115,6 +115,7 @@ type RunResult struct {
 	Wall         time.Duration
 	Steps        int64
 	Violations   []Violation
+	NViol        int
 	Inconclusive []string
 	Reach        map[string]int
 	FuncsSym     map[string]bool
@@ -364,7 +365,12 @@ func (p *Program) Explore(opts RunOpts) (*RunResult, error) {
 						res.Reach[k]++
 					}
 				}
-				res.Violations = append(res.Violations, ps.viols...)
+				for _, v := range ps.viols {
+					res.NViol++
+					if len(res.Violations) < 400 {
+						res.Violations = append(res.Violations, v)
+					}
+				}
 				if len(res.Samples) < 8 && status != "infeasible" {
 					res.Samples = append(res.Samples, PathSummary{Trace: decisionsString(ps.trace), Obs: ps.obs, Status: status})
 				}
